@@ -130,6 +130,7 @@ func (d *decoder) decodeSymbolDictionary(hdr *segmentHeader, data []byte) ([]*bi
 	}
 	iardx := &intCtx{}
 	iardy := &intCtx{}
+	var aggIAID *iaidCtx // for inline aggregation text regions
 
 	// generic region and refinement contexts persist across all symbols
 	// within a dictionary (§7.4.2.2 steps 3-4, 7)
@@ -225,6 +226,20 @@ func (d *decoder) decodeSymbolDictionary(hdr *segmentHeader, data []byte) ([]*bi
 					allSyms := combined[:sdNumInSyms+nDecoded]
 					codeLen := symCodeLen(len(allSyms))
 
+					// Every inline text region starts from cleared IAID
+					// contexts.  One array (large enough for the final
+					// code length) serves the whole dictionary and only
+					// the entries used are cleared, so the cost per symbol
+					// does not grow with the size of the dictionary.
+					if aggIAID == nil {
+						aggIAID, err = newIAIDCtx(symCodeLen(sdNumInSyms + sdNumNewSyms))
+						if err != nil {
+							return nil, err
+						}
+						aggIAID.track = true
+					}
+					aggIAID.reset()
+
 					tp := &textRegionParams{
 						Width:        iSymWidth,
 						Height:       iHcHeight,
@@ -232,6 +247,7 @@ func (d *decoder) decodeSymbolDictionary(hdr *segmentHeader, data []byte) ([]*bi
 						Strips:       1,
 						Symbols:      allSyms,
 						SymCodeLen:   codeLen,
+						IAID:         aggIAID,
 						CombOp:       bitmap.CombOpOR,
 						RefCorner:    cornerBottomLeft,
 					}
